@@ -35,6 +35,21 @@ func adsTime(t int64) time.Time { return time.Unix(100000+t, 0) }
 type adsOwnerArgs struct {
 	Svc   string `json:"svc"`
 	Other bool   `json:"other"` // a second advertised service stays open
+	// "" (close-during-send): the listener is closed between the collection and the send of a round;
+	// "round-before-close-lock": a whole advertisement round runs at the moment Close asks for the listener lock
+	Variant string `json:"variant"`
+}
+
+// adsLockHook wraps the node a socket belongs to: the first request for the listener lock runs `before` first
+type adsLockHook struct {
+	*Netceptor
+	once   sync.Once
+	before func()
+}
+
+func (h *adsLockHook) GetListenerLock() *sync.RWMutex {
+	h.once.Do(h.before)
+	return h.Netceptor.GetListenerLock()
 }
 
 // owner: a periodic advertisement round of the owning node during which the listener is closed — between the
@@ -65,6 +80,17 @@ func adsOwner(raw json.RawMessage) interface{} {
 	for len(ch) > 0 {
 		<-ch
 	}
+	if a.Variant == "round-before-close-lock" {
+		fired := false
+		if rpc, ok := pc.(*PacketConn); ok {
+			rpc.s = &adsLockHook{Netceptor: s, before: func() { fired = true; s.sendServiceAds(); verifWaitFlood() }}
+		}
+		if !verifTimed(10*time.Second, func() { _ = pc.Close() }) {
+			return map[string]interface{}{"wedged": true}
+		}
+		verifWaitFlood()
+		return adsOwnerObserve(ch, svc, fired)
+	}
 	fired := false
 	logger.RegisterLogger(func(level int, format string, v ...interface{}) {
 		if fired || !strings.HasPrefix(format, "Sending service advertisement") || len(v) == 0 {
@@ -81,6 +107,11 @@ func adsOwner(raw json.RawMessage) interface{} {
 		return map[string]interface{}{"wedged": true}
 	}
 	verifWaitFlood()
+	return adsOwnerObserve(ch, svc, fired)
+}
+
+// adsOwnerObserve: the messages about svc that the owner emitted, and what a fresh node lists after receiving them in both orders
+func adsOwnerObserve(ch chan []byte, svc string, fired bool) interface{} {
 	var msgs [][]byte
 	var adTime, wdTime time.Time
 	for len(ch) > 0 {
@@ -250,6 +281,9 @@ func adsGenAll(v *verifRun) {
 	adsGen(v)
 	for i := 0; i < 4; i++ {
 		v.do(adsApply, "owner", adsOwnerArgs{Svc: verifHex([]byte([]string{"sa", "sb"}[i%2])), Other: i >= 2})
+	}
+	for i := 0; i < 2; i++ {
+		v.do(adsApply, "owner", adsOwnerArgs{Svc: verifHex([]byte("sa")), Other: i == 1, Variant: "round-before-close-lock"})
 	}
 }
 
